@@ -1,6 +1,6 @@
 (* C07 -- property theorems only: statement + exact + Print Assumptions. *)
 From Coq Require Import List ZArith Reals.
-From LJT Require Import gen.GenDctConst model.Quant model.Dct proofs.QuantCert proofs.QuantProofs proofs.DctProofs proofs.DctRange proofs.RmsBound gen.GenC07Ctl model.C07Ctl proofs.C07CtlProofs.
+From LJT Require Import gen.GenDctConst model.Quant model.Dct proofs.QuantCert proofs.QuantProofs proofs.DctProofs proofs.DctRange proofs.RmsBound gen.GenC07Ctl model.C07Ctl proofs.C07CtlProofs model.C07Edge proofs.C07EdgeProofs proofs.DctOrth proofs.DctRound.
 Import ListNotations.
 Local Open Scope Z_scope.
 
@@ -106,6 +106,58 @@ Theorem C07_rms_bound_partial : forall (n : nat) (A : nat -> nat -> R),
      norm2 n (fun i => y i - x i) <= (qn + e1 + e2) * (qn + e1 + e2))%R.
 Proof. exact rms_bound_partial_proof. Qed.
 Print Assumptions C07_rms_bound_partial.
+
+(* the 8x8 DCT-II matrix dctA k i = c_k cos((2i+1) k pi/16) is orthogonal over the reals (exact proof by
+   telescoping sums of cosines), and so is the 64x64 matrix dctA2 of the 2-D block transform *)
+Theorem C07_dct_orthogonal :
+  (forall k l, (k < 8)%nat -> (l < 8)%nat -> rsum 8 (fun i => dctA k i * dctA l i) = delta k l)%R /\
+  (forall i j, (i < 8)%nat -> (j < 8)%nat -> rsum 8 (fun k => dctA k i * dctA k j) = delta i j)%R /\
+  (forall p q, (p < 64)%nat -> (q < 64)%nat -> rsum 64 (fun u => dctA2 u p * dctA2 u q) = delta p q)%R /\
+  (forall u v, (u < 64)%nat -> (v < 64)%nat -> rsum 64 (fun p => dctA2 u p * dctA2 v p) = delta u v)%R.
+Proof. exact (conj dct_rows_orthonormal (conj dct_cols_orthonormal (conj dct2_cols_orthonormal dct2_rows_orthonormal))). Qed.
+Print Assumptions C07_dct_orthogonal.
+
+(* (4') the block bound for the REAL 8x8 DCT: no orthogonality hypothesis left; still partial in e1, e2
+   (accuracy of jpeg_fdct_islow / 8 resp. jpeg_idct_islow against dctA2) *)
+Theorem C07_rms_bound_dct_partial : forall (x F D y h : nat -> R) (e1 e2 qn : R),
+  (0 <= e1 -> 0 <= e2 -> 0 <= qn ->
+   norm2 64 (fun k => F k - ap 64 dctA2 x k) <= e1 * e1 ->
+   (forall k, (k < 64)%nat -> Rabs (D k - F k) <= h k) ->
+   rsum 64 (fun k => h k * h k) <= qn * qn ->
+   norm2 64 (fun i => y i - ap 64 (tr dctA2) D i) <= e2 * e2 ->
+   norm2 64 (fun i => y i - x i) <= (qn + e1 + e2) * (qn + e1 + e2))%R.
+Proof. exact rms_bound_dct_proof. Qed.
+Print Assumptions C07_rms_bound_dct_partial.
+
+(* the rounding part of e1, derived from the integer model: for every block of centred valid samples each
+   output of jpeg_fdct_islow is within rbound / 2^26 (= 1.5 for 8-bit, 2.5 for 12-bit data) of the exact
+   integer-linear LL&M flow graph fdct_lin2d (same butterflies and FIX_* constants, no DESCALE) / 2^26 *)
+Theorem C07_fdct_rounding_error : forall cf data, cfg_ok cf -> length data = 64%nat ->
+  Forall (fun x => - centersample cf <= x <= centersample cf) data ->
+  Forall2 (fun f l => - rbound cf <= 2 ^ 26 * f - l <= rbound cf) (fdct_islow cf data) (fdct_lin2d data).
+Proof. exact fdct_rounding_error_proof. Qed.
+Print Assumptions C07_fdct_rounding_error.
+
+(* edge_padding_local: jcprepct.c expand_bottom_edge + jcsample.c expand_right_edge pad a w x h component to
+   W x H by replicating the last real row / column: sample (y, x) = image (min y (h-1), min x (w-1)) *)
+Theorem C07_edge_padding_local : forall image w h W H y x,
+  (1 <= w <= W)%nat -> (1 <= h <= H)%nat -> (H <= length image)%nat ->
+  (forall r, (r < H)%nat -> length (nth r image []) = W) -> (y < H)%nat -> (x < W)%nat ->
+  nth x (nth y (pad_component image w h W H) []) 0 = nth (Nat.min x (w - 1)) (nth (Nat.min y (h - 1)) image []) 0.
+Proof. exact edge_padding_local_proof. Qed.
+Print Assumptions C07_edge_padding_local.
+
+Theorem C07_edge_padding_constant : forall image w h W H v y x,
+  (1 <= w <= W)%nat -> (1 <= h <= H)%nat -> (H <= length image)%nat ->
+  (forall r, (r < H)%nat -> length (nth r image []) = W) ->
+  (forall r c, (r < h)%nat -> (c < w)%nat -> nth c (nth r image []) 0 = v) ->
+  (y < H)%nat -> (x < W)%nat -> nth x (nth y (pad_component image w h W H) []) 0 = v.
+Proof. exact edge_padding_constant_proof. Qed.
+Print Assumptions C07_edge_padding_constant.
+
+Theorem C07_source_edge_shape : edge_functions_have_modelled_shape = true.
+Proof. reflexivity. Qed.
+Print Assumptions C07_source_edge_shape.
 
 (* range limiting (incl. the RANGE_MASK wrap) never moves a value away from an in-range sample *)
 Theorem C07_clamp_nonexpansive : forall cf x v, cfg_ok cf -> 0 <= v <= maxsample cf -> - 2 ^ 31 <= x < 2 ^ 31 ->
